@@ -155,6 +155,21 @@ def run_inproc(E, spec, R, rng):
             continue
         cfg = case['config']
         histories = 1
+        # the public pairing helper must keep results and sentences aligned (also around failed / empty sentences)
+        try:
+            from depccg.tree import iter_parse_results
+            pairs = list(iter_parse_results(res, case['_doc']))
+            R.count('align:iter_parse_results')
+            want = [(si + 1, ti + 1) for si, lst in enumerate(res) for ti in range(len(lst))]
+            if [(p.sentence_index, p.tree_index) for p in pairs] != want:
+                viol(E, 'batch:misaligned', f'iter_parse_results enumerates {[(p.sentence_index, p.tree_index) for p in pairs][:6]}, expected {want[:6]}', wit)
+            else:
+                for p in pairs:
+                    if p.tokens is not case['_doc'][p.sentence_index - 1] or p.tree is not res[p.sentence_index - 1][p.tree_index - 1].tree:
+                        viol(E, 'batch:misaligned', f'iter_parse_results pairs tree {p.sentence_index}/{p.tree_index} with the tokens of another sentence', wit)
+                        break
+        except Exception as e:
+            viol(E, 'batch:misaligned', f'iter_parse_results raised {e!r}', wit)
         # every sentence alone, in a fresh call
         for i in range(n):
             words = case['sentences'][i][0]
@@ -167,6 +182,23 @@ def run_inproc(E, spec, R, rng):
                 R.count('failure:own-placeholder-only')
                 if not is_placeholder(res[i]):
                     viol(E, 'batch:failure-leak', f'over-long sentence {i} did not yield exactly its failure placeholder', wit)
+            if is_placeholder(res[i]) and len(words) <= cfg['max_length'] and len(words) >= 1:
+                # a sentence that is not too long may fail only if it has no derivation or ran out of steps
+                hi = sum(1 for j in range(i) if len(case['sentences'][j][0]) <= cfg['max_length'])
+                pops = out['history'][hi][0][0] if hi < len(out['history']) else cfg['max_step']
+                if pops < cfg['max_step']:
+                    from vlib import oracle_cky
+                    _, tag, dep = case['sentences'][i]
+                    must = [oracle_cky.admitted_tags(tag[k], cfg['pruning_size'], cfg['use_beta'], cfg['beta'])[0] for k in range(len(words))]
+                    try:
+                        best, _ = oracle_cky.Oracle(tag, dep, case['cats'], case['binary'], case['unary'], case['roots'],
+                                                    cfg['unary_penalty'], must, 20000).best()
+                        R.count('failure:legitimacy-checked')
+                        if best is not None:
+                            viol(E, 'batch:failure-leak', f'sentence {i} ({len(words)} words, max_length={cfg["max_length"]}, {pops} pops < max_step) '
+                                 f'was reported as failed although it has a derivation', dict(wit, sentence=i))
+                    except oracle_cky.Budget:
+                        pass
             alone = run_batch(E, case, order=[i])
             if alone['error'] is not None or len(alone['results']) != 1:
                 viol(E, 'batch:history-dependent', f'sentence {i} alone: {alone["error"]!r}', wit)
